@@ -341,3 +341,66 @@ def gen_c06(rng, tier):
         case = [img_line(rng, data, 0, "e"), "to_view f%d" % bits, "img_to_view f%d" % bits, "hdr v%d" % bits, "to_file v%d" % bits]
         cases.append(case)
     return cases
+
+
+def gen_c07_boundaries(rng, tier):
+    """Boundary enumeration per conjunct of the acceptance predicate: starting from an image in which
+    every other condition holds comfortably (small SizeOfHeaders, large SizeOfImage), the buffer
+    length is moved across each structure end by -4..+4 bytes, and each limit field across its limit."""
+    cases = []
+    combos = []
+    for bits in (32, 64):
+        for e in (0x40, 0x80, 0xC8):
+            for nsec in (0, 1, 3):
+                for nrva in (0, 5, 16, 17):
+                    combos.append((bits, e, nsec, nrva))
+    if tier == "quick":
+        combos = rng.sample(combos, 14)
+    for bits, e, nsec, nrva in combos:
+        def base():
+            pe = PE(bits)
+            pe.e_lfanew = e
+            pe.num_rva = nrva
+            pe.sections = [Section(name=b".s%d" % i, va=0x1000 * (i + 1), vs=0x10, prd=0, rs=0, data=b"") for i in range(nsec)]
+            pe.size_of_image = 0x10000
+            return pe
+        pe = base()
+        pe.build()
+        lay = pe.layout
+        sec_end = lay["sec_table"] + 40 * nsec
+        bounds = sorted(set([64, e + 24, e + 26, lay["nt_end"], lay["nt_end"] + 8 * min(nrva, 16), lay["sec_table"], sec_end]))
+        for B in bounds:
+            for d in range(-4, 5):
+                L = B + d
+                if L < 0:
+                    continue
+                pe = base()
+                pe.file_len = L
+                pe.size_of_headers = rng.choice([0, min(L, 0x40), L, L & ~3])    # never the reason for rejection …
+                data = pe.build()
+                case = [img_line(rng, data, rng.choice([0, 4, 8, 12]), "e")]
+                for k in ("f32", "f64", "v32", "v64", "wf", "wv"):
+                    case.append("from_bytes " + k)
+                case += ["hdr f%d" % bits, "hdrw wf", "hdr v%d" % bits]
+                cases.append(case)
+        # limit fields across their limits, buffer comfortably large
+        for field, vals in (("num_sections", (95, 96, 97)), ("size_of_headers", None), ("e_lfanew_align", (e + 1, e + 2, e + 4)), ("size_of_optional", None)):
+            pe = base()
+            pe.build()
+            lay = pe.layout
+            big = lay["sec_table"] + 40 * 100 + 64
+            if field == "num_sections":
+                for v in vals:
+                    pe = base(); pe.num_sections = v; pe.file_len = big; pe.size_of_headers = 0x40
+                    cases.append([img_line(rng, pe.build(), 0, "e")] + ["from_bytes " + k for k in ("f32", "f64", "wf")])
+            elif field == "size_of_headers":
+                for v in (big - 1, big, big + 1, 0x10000 - 1, 0x10000, 0x10001):
+                    pe = base(); pe.file_len = big; pe.size_of_headers = v
+                    cases.append([img_line(rng, pe.build(), 0, "e")] + ["from_bytes " + k for k in ("f32", "f64", "wf")])
+            elif field == "size_of_optional":
+                std = pe.opt_size() + 8 * min(nrva, 16)
+                for v in (std - 4, std - 2, std - 1, std, std + 1, std + 2, std + 3, std + 4, 0, 0xFFFC):
+                    pe = base(); pe.size_of_optional = max(0, v); pe.file_len = max(big, e + 24 + max(0, v) + 40 * nsec + (4 if v < 0x1000 else -4)); pe.size_of_headers = 0x40
+                    if pe.file_len < (1 << 20):
+                        cases.append([img_line(rng, pe.build(), 0, "e")] + ["from_bytes " + k for k in ("f32", "f64", "wf")] + ["hdr f%d" % bits])
+    return cases
